@@ -442,6 +442,7 @@ def correspond(ctx):
     malformed_stream(ctx, mols)
     cgr_stream(ctx)
     history_stream(ctx)
+    forwarding_stream(ctx)
     defaults_stream(ctx, [m for m in mols if 2 <= len(m[1]._atoms) <= 40][:30 if ctx.quick else 300])
 
     # folding on arbitrary ints, both copies of the loop
@@ -1243,6 +1244,177 @@ def defaults_stream(ctx, mols):
             _remember(ctx, _shrink_note(op, params, name, wire.mol_to_line(mol)), mol)
 
 
+# ------------------------------------------------------------------------------------------------
+# parameter forwarding: every entry point x every parameter x non-default values, positional and by keyword
+# ------------------------------------------------------------------------------------------------
+
+DOC_DEFAULTS = {'min_radius': 1, 'max_radius': 4, 'length': 1024, 'number_active_bits': 2, 'number_bit_pairs': 4}
+NONDEFAULT = {'min_radius': (2, 3), 'max_radius': (2, 6), 'length': (64, 4096), 'number_active_bits': (1, 3),
+              'number_bit_pairs': (1, 0, 6)}
+_L5 = ('min_radius', 'max_radius', 'length', 'number_active_bits', 'number_bit_pairs')
+DOC_ORDER = {'linear_fingerprint': _L5, 'linear_bit_set': _L5, 'linear_hash_set': (_L5[0], _L5[1], _L5[4]),
+             'linear_hash_smiles': (_L5[0], _L5[1], _L5[4]), 'linear_smiles_hash': (_L5[0], _L5[1], _L5[4]),
+             '_chains': _L5[:2], '_fragments': _L5[:2], 'morgan_fingerprint': _L5[:4], 'morgan_bit_set': _L5[:4],
+             'morgan_hash_set': _L5[:2], 'morgan_hash_smiles': _L5[:2], 'morgan_smiles_hash': _L5[:2], '_morgan_hash_dict': _L5[:2]}
+FORWARD_MOLS = ['CCCCCCCC', 'OCC(N)CC(=O)Oc1ccccc1', 'CC(C)(C)CC(C)(C)C']
+FORWARD_OP = {'linear_fingerprint': 'lbs', 'linear_bit_set': 'lbs', 'linear_hash_set': 'lhs', 'linear_hash_smiles': 'lhs',
+              'linear_smiles_hash': 'lhs', '_chains': 'chains', '_fragments': 'frags', 'morgan_fingerprint': 'mbs',
+              'morgan_bit_set': 'mbs', 'morgan_hash_set': 'mhs', 'morgan_hash_smiles': 'mhs', 'morgan_smiles_hash': 'mhs',
+              '_morgan_hash_dict': 'mdict'}
+
+
+def forward_observe(meth, v, full):
+    """canonical observable of a call result, in the shape `parse_model(FORWARD_OP[meth], …)` has"""
+    if meth.endswith('_fingerprint'):
+        if len(v) != full['length'] or any(int(x) not in (0, 1) for x in v):
+            return ('shape', len(v))
+        return ('ok', [i for i, x in enumerate(v) if x])
+    if meth.endswith('_hash_smiles'):
+        return ('ok', sorted(v))
+    if meth.endswith('_smiles_hash'):
+        return ('ok', sorted({h for hs in v.values() for h in hs}))
+    if meth == '_fragments':
+        return ('ok', sorted((tuple(k), _frag_list(tuple(k), ps)) for k, ps in v.items()))
+    if meth == '_morgan_hash_dict':
+        return ('ok', [sorted(x.items()) for x in v])
+    if meth == '_chains':
+        return ('ok', sorted(tuple(q) for q in v))
+    return ('ok', sorted(v))
+
+
+def forward_call(mol, meth, args, kwargs):
+    try:
+        v = getattr(mol, meth)(*args, **kwargs)
+    except Exception as e:  # noqa
+        return (_err(e), None)
+    return v
+
+
+def forward_property(mol, meth, full, v):
+    """documentation-level oracle for one call whose *effective* parameters are `full` (the documented defaults overridden
+    by what the caller passed): None if the clause holds, else a description. Never consults the Lean model."""
+    lo, hi, length, nab, nbp = (full[k] for k in ('min_radius', 'max_radius', 'length', 'number_active_bits', 'number_bit_pairs'))
+    if isinstance(v, tuple) and len(v) == 2 and isinstance(v[0], str) and v[1] is None:
+        return f'raised {v[0]} inside the documented grid'
+    lin = meth.startswith('linear') or meth in ('_chains', '_fragments')
+    hashes = oracle_linear_hashes(mol, lo, hi, nbp) if lin else oracle_morgan(mol, lo, hi)
+    if meth.endswith('_fingerprint'):
+        got, exp = (len(v), {i for i, x in enumerate(v) if x}), (length, oracle_bits(hashes, length, nab))
+    elif meth.endswith('_bit_set'):
+        got, exp = set(v), oracle_bits(hashes, length, nab)
+    elif meth.endswith('_hash_set') or meth.endswith('_hash_smiles'):
+        got, exp = set(v), hashes
+    elif meth.endswith('_smiles_hash'):
+        got, exp = {h for hs in v.values() for h in hs}, hashes
+    elif meth == '_chains':
+        got, exp = {min(tuple(q), tuple(q)[::-1]) for q in v}, oracle_paths(mol, lo, hi)
+    elif meth == '_fragments':
+        got, exp = {k: len(ps) for k, ps in v.items()}, oracle_fragment_counts(mol, lo, hi)
+    elif meth == '_morgan_hash_dict':
+        got, exp = (len(v), {h for d in v for h in d.values()}), (hi - lo + 1, hashes)
+    else:
+        return None
+    if got != exp:
+        return f'result is not the documented one for the effective parameters {full}'
+    return None
+
+
+def forward_cases(sigs):
+    """(method, form, args, kwargs, effective parameters, varied parameter) — every parameter of every entry point at each
+    non-default value, once by keyword (everything else defaulted) and once positionally (the preceding parameters spelled
+    out at their defaults); plus all parameters non-default at once, all-positional and all-keyword"""
+    for meth in sigs:
+        names = list(DOC_ORDER[meth])     # positional calls follow the DOCUMENTED order, not the regenerated one
+        dflt = DOC_DEFAULTS
+        for i, nm in enumerate(names):
+            for v in NONDEFAULT[nm]:
+                full = dict(DOC_DEFAULTS)
+                full[nm] = v
+                yield meth, 'kw', (), {nm: v}, full, nm
+                yield meth, 'pos', tuple(dflt[n] for n in names[:i]) + (v,), {}, full, nm
+        for j in (0, 1):
+            vals = {n: NONDEFAULT[n][j] for n in names}
+            if vals.get('min_radius', 1) > vals.get('max_radius', 9):
+                vals['max_radius'] = 6
+            full = dict(DOC_DEFAULTS)
+            full.update(vals)
+            yield meth, 'pos', tuple(vals[n] for n in names), {}, full, '*'
+            yield meth, 'kw', (), dict(vals), full, '*'
+            if len(names) > 2:
+                yield meth, 'mixed', tuple(vals[n] for n in names[:2]), {n: vals[n] for n in names[2:]}, full, '*'
+
+
+def forwarding_stream(ctx):
+    """tie of the regenerated call-graph table (`Gen.C17.calls`): the *runtime* effect of every parameter of every entry
+    point, in positional and keyword form, against the Lean model at the effective parameters and against the
+    documentation-level oracle"""
+    from chython import smiles
+    from chython.algorithms.fingerprints.linear import LinearFingerprint
+    from chython.algorithms.fingerprints.morgan import MorganFingerprint
+    d = _state.get('defaults')
+    if not d:
+        return
+    for nm_, vals in d.items():
+        if nm_ not in DOC_ORDER or [n for n, _ in vals] != list(DOC_ORDER[nm_]):
+            ctx.broke('translator', 'forwarding', f'{nm_}: parameters {[n for n, _ in vals]} are not the documented ones '
+                      f'{list(DOC_ORDER.get(nm_, ()))} (in this order)')
+            return
+    mols = [(s, smiles(s)) for s in FORWARD_MOLS]
+    # the two abstract `_atom_identifiers` are placeholders: they must stay overridden (Fingerprints / FingerprintsCGR)
+    for cls in (LinearFingerprint, MorganFingerprint):
+        try:
+            cls._atom_identifiers.fget(mols[0][1])
+            ctx.broke('correspondence', cls.__name__ + '._atom_identifiers', 'the abstract placeholder returned a value')
+        except NotImplementedError:
+            ctx.count(('abstract-ident', cls.__name__), True)
+        except Exception as e:  # noqa
+            ctx.broke('correspondence', cls.__name__ + '._atom_identifiers', f'placeholder raised {type(e).__name__}')
+    cases = list(forward_cases(d))
+    lines, meta = [], []
+    for name, mol in mols:
+        line = wire.mol_to_line(mol)
+        for meth, form, args, kwargs, full, varied in cases:
+            op = FORWARD_OP[meth]
+            order = {'lbs': ('min_radius', 'max_radius', 'length', 'number_active_bits', 'number_bit_pairs'),
+                     'mbs': ('min_radius', 'max_radius', 'length', 'number_active_bits'),
+                     'lhs': ('min_radius', 'max_radius', 'number_bit_pairs')}.get(op, ('min_radius', 'max_radius'))
+            params = tuple(full[k] for k in order)
+            dparams = tuple(DOC_DEFAULTS[k] for k in order)
+            lines.append(model_line(op, params, line))
+            lines.append(model_line(op, dparams, line))
+            meta.append((name, mol, line, meth, form, args, kwargs, full, varied, op, params))
+    resp = run_driver('C17', lines) if ctx.build_ok else None
+    effective = set()
+    for i, (name, mol, line, meth, form, args, kwargs, full, varied, op, params) in enumerate(meta):
+        v = forward_call(mol, meth, args, kwargs)
+        failed = isinstance(v, tuple) and len(v) == 2 and isinstance(v[0], str) and v[1] is None
+        real = v if failed else forward_observe(meth, v, full)
+        ctx.count(('forward', meth, form, args, tuple(sorted(kwargs.items())), name), True)
+        ctx.dist('op:forward/' + form)
+        what = forward_property(mol, meth, full, v)
+        inp = {'kind': 'forward', 'method': meth, 'args': list(args), 'kwargs': kwargs, 'smiles': name}
+        if what:
+            ctx.cov['disagreements_checked'] += 1
+            ctx.fail(f'C17/parameter-forwarding/{meth}', f'{name}.{meth}(*{list(args)}, **{kwargs}): {what}', inp)
+        if resp is None:
+            continue
+        model, model_default = parse_model(op, resp[2 * i]), parse_model(op, resp[2 * i + 1])
+        if model != model_default:
+            effective.add((meth, varied))
+        if model != real:
+            ctx.cov['disagreements_checked'] += 1
+            ctx.broke('correspondence', meth + '/forwarding', f'{name}.{meth}(*{list(args)}, **{kwargs}) ({form}) differs from the '
+                      f'model at {params}: real={_short(real, 120)} model={_short(model, 120)}')
+            if op in ENTRY:
+                _remember(ctx, _shrink_note(op, params, name, line), mol)
+    if resp is not None:
+        for meth, vals in d.items():
+            for n, _ in vals:
+                if (meth, n) not in effective:
+                    ctx.broke('correspondence', meth + '/forwarding', f'no case in which {n} changes the result of {meth}: '
+                              f'the stream cannot see this parameter')
+
+
 def probe(inp):
     """Re-execute ONE input on the real code: does the property fail on it?"""
     kind = inp.get('kind')
@@ -1258,6 +1430,18 @@ def probe(inp):
                           f'{", ".join(ENTRY[o] for o in bad)} differ from a freshly built molecule with the same atoms and bonds '
                           f'(params {inp["params"]}); e.g. {ENTRY[op]}: {_short(post[op], 120)} vs {_short(ref[op], 120)}')
         return False, 'results after the edits equal those of a freshly built molecule'
+    if kind == 'forward':
+        from chython import smiles
+        mol = smiles(inp['smiles'])
+        full = dict(DOC_DEFAULTS)
+        meth = inp['method']
+        names = DOC_ORDER[meth]
+        full.update(dict(zip(names, inp['args'])))
+        full.update(inp['kwargs'])
+        v = forward_call(mol, meth, tuple(inp['args']), dict(inp['kwargs']))
+        what = forward_property(mol, meth, full, v)
+        return bool(what), (f'{inp["smiles"]}.{meth}(*{inp["args"]}, **{inp["kwargs"]}): {what}' if what
+                            else 'the call gives the documented result for its effective parameters')
     if kind == 'fold':
         res = list(fold_checks(inp['length'], inp['nab'], inp['hashes']))
         return bool(res), '; '.join(w for _, w in res) or 'folding follows the documented windows and stays below length'
